@@ -221,6 +221,21 @@ def walk(fn, **kw):
     return Walker(fn, **kw).run()
 
 
+def apply_closure(prog, agg, args=(), **kw):
+    """paths of a closure body applied to `args`, with its captured variables replaced by the expressions the parent
+    captured (`agg` = the ('agg','closure',did,..,ops) expression built in the parent)"""
+    a = agg
+    while isinstance(a, tuple) and a and a[0] in ("ref", "deref"):
+        a = a[1]
+    if not (isinstance(a, tuple) and a[0] == "agg" and a[1] == "closure"):
+        return None
+    fn = prog.fn(a[2])
+    env = {1: a}
+    for i, x in enumerate(args):
+        env[2 + i] = x
+    return Walker(fn, env1=env, **kw).run()
+
+
 def nonpanic(paths):
     return [p for p in paths if p.leaf[0] not in ("panic", "unwind", "unreachable")]
 
